@@ -1,5 +1,69 @@
-(* C16 — a persistent z.Tree reopens to the same contents.  Statements only. (placeholder while the proofs are built) *)
-From Ristretto Require Import Base.Word Tree.Node Tree.Tree Tree.Reopen.
+(* C16 — a persistent z.Tree reopens to the same contents.  Statements only.
+
+   Model: Tree/Reopen.v ([persist]: the file a clean Close leaves = page table + file size; [reinit] as in the code:
+   frontier scan with the repaired bound, tail marking by traversal, pointed pages, first page neither reached nor
+   pointed to = free head, stats recount; [tree_reopen] = Close + NewTreePersistent). *)
+From Ristretto Require Import Base.Word Tree.Node Tree.NodeProofs Tree.Tree Tree.TreeProofs Tree.Reopen Tree.ReopenProofs.
 Open Scope N_scope.
-Example C16_nonvacuous : exists st st', tree_new_file 4 80 = Some st /\ tree_reopen 4 80 st = Some st' /\ root st' = root st.
-Proof. do 2 eexists; repeat split; vm_compute; reflexivity. Qed.
+
+(* The full statement: for every history and every split point, reopening in between changes nothing observable
+   (same tree pages, same leaf entries hence same map, same nextPage / NumPages, same free list hence the same
+   future recycling, same NumLeafKeys and NumPagesFree) and the continued run ends in the same observable state. *)
+Definition C16_reopen_statement : Prop :=
+  forall M ps a b, (4 <= M)%nat -> ps <= 1048568 -> Forall op_ok (a ++ b) -> reopen_agrees M ps a b = true.
+
+(* PARTIAL.  Proved: the well-formedness invariant the reopen argument needs holds at every point of every history of
+   a persistent tree: tree pages and free list are duplicate-free and are exactly the ids 1..nextPage-1 (so the pages
+   reinit does not reach from the root are exactly the free list), the stats are exact recounts (what reinit
+   recomputes), and the map is correct (C10), so every close point is a state of this kind.
+   Missing for C16_reopen_statement: the three lemmas about reinit itself -- (1) rebuild (page_of root fl) 1 = root
+   (lookup of a page id in the table of a duplicate-free tree), (2) frontier = nextPage, (3) the first page neither
+   reached nor pointed to is the free-list head and following word 0 from it gives back the free list. *)
+Theorem C16_reopen_partial : forall M ps ops, (4 <= M)%nat -> ps <= 1048568 -> Forall op_ok ops ->
+  exists st0 st, tree_new_file M ps = Some st0 /\ run M ps ops st0 = Some st /\ WFt M st /\
+    NoDup (pids (root st) ++ freeList (al st)) /\
+    (forall p, In p (pids (root st) ++ freeList (al st)) <-> 1 <= p < nextPage (al st)) /\
+    stat_leaf_keys st = Z.of_nat (length (entries (root st))) /\
+    stat_pages_free st = Z.of_nat (length (freeList (al st))) /\
+    nextPage (al st) * ps <= data_len (al st) /\ offset (al st) <= curSz (al st).
+Proof.
+  intros M ps ops HM Hps Hok.
+  destruct (new_file_wf M HM ps Hps) as (st0 & H0 & Hwf0).
+  destruct (history_wf M HM ps ops Hps st0 Hwf0 Hok) as (st & Hr & [Hwt Hwa]).
+  exists st0, st. split; [exact H0|]. split; [exact Hr|]. split; [exact Hwt|].
+  destruct (wfa_pages M HM ps st Hwa) as (H1 & H2 & H3 & H4).
+  destruct Hwa as [(_ & _ & _ & _ & H5 & H6) _].
+  split; [exact H1|]. split; [exact H2|]. split; [exact H3|]. split; [exact H4|]. split; [exact H6|exact H5].
+Qed.
+
+(* The full statement evaluated: page size 80 (M = 4), a history with 3 levels of splits, overwrites, a DeleteBelow
+   that frees pages, re-inserts that recycle them, a rewriting IterateKV and a second DeleteBelow -- closed and
+   reopened at EVERY one of its split points. *)
+Definition c16_ops : list op :=
+  map (fun i => OSet (N.of_nat i) (100 + N.of_nat i)) (seq 1 24) ++
+  map (fun i => OSet (N.of_nat i) 5) (seq 1 10) ++ [ODeleteBelow 50] ++
+  map (fun i => OSet (N.of_nat i) 7) [30; 31; 2; 3]%nat ++
+  [OIterate (fun k v => if v =? 7 then 60 else 0); ODeleteBelow 110] ++
+  map (fun i => OSet (N.of_nat i) 9) [40; 41; 42; 43; 44; 45]%nat.
+Example C16_reopen_every_split_point : all_splits 4 80 c16_ops = true.
+Proof. vm_compute; reflexivity. Qed.
+
+(* page size 96 (M = 5), keys around 2^64-2, delete everything, refill *)
+Definition c16_ops2 : list op :=
+  map (fun i => OSet (18446744073709551614 - N.of_nat i) (1 + N.of_nat i)) (seq 0 30) ++ [ODeleteBelow 1000] ++
+  map (fun i => OSet (N.of_nat i) 3) (seq 1 12) ++ [ODeleteBelow 3; OReset] ++
+  map (fun i => OSet (1000 * N.of_nat i) 3) (seq 1 12).
+Example C16_reopen_every_split_point_2 : all_splits 5 96 c16_ops2 = true.
+Proof. vm_compute; reflexivity. Qed.
+
+Example C16_nonvacuous : exists st0 st st', tree_new_file 4 80 = Some st0 /\ run 4 80 (firstn 35 c16_ops) st0 = Some st /\
+  tree_reopen 4 80 st = Some st' /\ freeList (al st) = [8; 4; 2] /\ freeList (al st') = [8; 4; 2] /\
+  nextPage (al st') = 23 /\ root st' = root st /\ curSz (al st') = 1048576.
+Proof.
+  do 3 eexists. split; [vm_compute; reflexivity|]. split; [vm_compute; reflexivity|].
+  split; [vm_compute; reflexivity|]. repeat split; vm_compute; reflexivity.
+Qed.
+
+Print Assumptions C16_reopen_partial.
+Print Assumptions C16_reopen_every_split_point.
+Print Assumptions C16_nonvacuous.
